@@ -18,6 +18,7 @@ import (
 	"github.com/tetratelabs/wazero/verifharness/numeric"
 	"github.com/tetratelabs/wazero/verifharness/registry"
 	"github.com/tetratelabs/wazero/verifharness/sysdef"
+	"github.com/tetratelabs/wazero/verifharness/sysiso"
 	"github.com/tetratelabs/wazero/verifharness/termination"
 	"github.com/tetratelabs/wazero/verifharness/waitnotify"
 	"github.com/tetratelabs/wazero/verifharness/wasifs"
@@ -59,6 +60,8 @@ var cmds = map[string]func([]string){
 	"numeric-check":         numeric.Check,
 	"gate-waitnotify":       waitnotify.Gate,
 	"trace-waitnotify":      waitnotify.Trace,
+	"replay-sysiso":         sysiso.Main,
+	"sysiso-child":          sysiso.Child,
 	"wexec-shrink":          wexec.Shrink,
 	"wexec-diff":            wexec.MainDiff,
 	"wexec-diff-child":      wexec.ChildDiff,
